@@ -33,7 +33,7 @@ impl<'a> Gen<'a> {
     }
 
     pub fn run(&mut self) {
-        let mut prog = Program { leaves: self.leaves.clone(), nodes: Vec::new() };
+        let mut prog = Program { leaves: self.leaves.clone(), nodes: Vec::new(), retrack: Vec::new() };
         let mut vals: Vec<T> = self.leaves.iter().map(|l| T::from_f64(l.dims.clone(), &l.vals)).collect();
         self.rec(&mut prog, &mut vals);
     }
@@ -110,7 +110,7 @@ pub fn broadcast_pool(var: u64) -> Vec<Leaf> {
     vec![
         Leaf { dims: vec![2, 3], vals: vec![2.0, 3.0 + v, 1.0, 5.0, 1.5, 4.0] },
         Leaf { dims: vec![3], vals: vec![1.0, 2.0 + v, 0.5] },
-        Leaf { dims: vec![2, 1], vals: vec![3.0, 2.0 + v] },
+        Leaf { dims: vec![2, 1], vals: vec![-3.0, -2.0 - v] },
         Leaf { dims: vec![3, 2], vals: vec![1.0, 2.0, 0.5 + v, 3.0, 2.0, 1.0] },
     ]
 }
